@@ -281,7 +281,7 @@ fn k_index2_whole_file_two_entries() {
 
 fn nix_jamcrc(bytes: &[u8]) -> u32 { let mut c: u32 = 0xFFFF_FFFF; for b in bytes { c ^= *b as u32; for _ in 0..8 { c = if c & 1 == 1 { (c >> 1) ^ 0xEDB8_8320 } else { c >> 1 }; } } c }
 
-//@unit props=C12,C01 label=B tier=quick native=1 fn=sqpack::index::SqPackIndex::{calculate_partial_hash,calculate_hash} bound="by execution: 40 ASCII game paths of depth 2..6 in lower, upper and two mixed cases, through calculate_partial_hash and through calculate_hash of an index1 and an index2 header"
+//@unit props=C12,C01 label=B tier=quick native=1 fn=sqpack::index::SqPackIndex::{calculate_partial_hash,calculate_hash} bound="by execution: 40 ASCII game paths of depth 2..6 in lower, upper and two mixed cases, through calculate_partial_hash and through calculate_hash of an index1 and an index2 header; every ASCII code point 1..127 placed in the directory and in the file part"
 //@desc a path hashes to the bit-serial JAMCRC of its lower-cased bytes: the whole path for index2, and for index1 the pair (file name after the last '/', directory before it); letter case never changes the hash
 #[test]
 fn native_path_hashes() {
@@ -302,5 +302,20 @@ fn native_path_hashes() {
             cases += 1;
         }
     } }
+    // every ASCII code point (except '/') inside a path, in the directory and in the file part, and both alphabets in full
+    for cp in 1u8..128 {
+        if cp == b'/' { continue; }
+        let c = cp as char;
+        let p = format!("bg/d{c}r/sub/f{c}le.dat");
+        let lower = p.to_ascii_lowercase();
+        let (dl, fl) = lower.rsplit_once('/').unwrap();
+        assert_eq!(SqPackIndex::calculate_partial_hash(&p), nix_jamcrc(lower.as_bytes()), "partial hash of a path containing code point {cp:#04x}");
+        assert!(i2.calculate_hash(&p) == Hash::FullPath(nix_jamcrc(lower.as_bytes())), "index2 hash with code point {cp:#04x}");
+        assert!(i1.calculate_hash(&p) == Hash::SplitPath { name: nix_jamcrc(fl.as_bytes()), path: nix_jamcrc(dl.as_bytes()) }, "index1 hash with code point {cp:#04x}");
+        cases += 1;
+    }
+    let both = "ABCDEFGHIJKLMNOPQRSTUVWXYZ/abcdefghijklmnopqrstuvwxyz/AbCdEfGhIjKlMnOpQrStUvWxYz.ZIP";
+    assert_eq!(SqPackIndex::calculate_partial_hash(both), nix_jamcrc(both.to_ascii_lowercase().as_bytes()), "both alphabets");
+    cases += 1;
     println!("NATIVE native_path_hashes cases={cases}");
 }
